@@ -10,6 +10,7 @@ mod kmesh;
 mod kseries;
 mod kcurve;
 mod kframe;
+mod kxform;
 
 pub fn f(v: &Value) -> f64 {
     match v {
@@ -51,6 +52,8 @@ fn main() {
     } else if let Some(v) = kseries::run(&kernel, &a) {
         v
     } else if let Some(v) = kcurve::run(&kernel, &a) {
+        v
+    } else if let Some(v) = kxform::run(&kernel, &a) {
         v
     } else if let Some(v) = kframe::run(&kernel, &a) {
         v
